@@ -58,11 +58,11 @@ func r10_1(c *Ctx, r *Report) {
 						if acc == "" || lunarOf != pushed {
 							continue
 						}
-						found[p.Name()+"="+acc] = true
+						found[[]string{"yearGanZhi", "monthGanZhi", "dayGanZhi", "timeGanZhi", "?", "?", "?"}[min(paramIndex(fn, p)&7, 6)]+"="+acc] = true
 					}
 				}
 				if bo, ok := iff.Cond.(*ssa.BinOp); ok && bo.Op == token.GEQ && blk.Succs[0].Dominates(b) {
-					if p, ok := bo.Y.(*ssa.Parameter); ok && p.Name() == "baseYear" {
+					if p, ok := bo.Y.(*ssa.Parameter); ok && paramIndex(fn, p) == len(fn.Params)-1 { // the base year (last parameter)
 						if g, ok := bo.X.(*ssa.Call); ok && g.Common().StaticCallee() != nil && g.Common().StaticCallee().Name() == "GetYear" {
 							base = true
 						}
@@ -128,14 +128,23 @@ func r10_2(c *Ctx, r *Report) {
 	norm := false
 	for _, b := range fn.Blocks {
 		for _, ins := range b.Instrs {
-			if phi, ok := ins.(*ssa.Phi); ok && phi.Comment == "sect" && len(phi.Edges) == 2 {
+			if phi, ok := ins.(*ssa.Phi); ok && len(phi.Edges) == 2 && isIntType(phi.Type()) {
 				if cond, _, ok := phiSelector(phi); ok {
 					if bo, ok := cond.(*ssa.BinOp); ok && bo.Op == token.NEQ {
-						if k, ok := constInt(bo.Y); ok && k == 1 {
+						// the merge of a parameter with the constant 2 under `parameter != 1`
+						prm, isPrm := bo.X.(*ssa.Parameter)
+						if k, ok := constInt(bo.Y); ok && k == 1 && isPrm {
+							two, same := false, false
 							for _, e := range phi.Edges {
 								if k2, ok := constInt(e); ok && k2 == 2 {
-									norm = true
+									two = true
 								}
+								if e == ssa.Value(prm) {
+									same = true
+								}
+							}
+							if two && same {
+								norm = true
 							}
 						}
 					}
@@ -148,7 +157,7 @@ func r10_2(c *Ctx, r *Report) {
 	for _, b := range fn.Blocks {
 		for _, ins := range b.Instrs {
 			phi, ok := ins.(*ssa.Phi)
-			if !ok || phi.Comment != "dgz" || len(phi.Edges) != 2 {
+			if !ok || len(phi.Edges) != 2 || !isStringType(phi.Type()) {
 				continue
 			}
 			cond, e0true, ok := phiSelector(phi)
